@@ -312,7 +312,8 @@ fn gen_prog(rng: &mut TestRng, i: usize, which: Which) -> ChainProg {
             }
         }
         nestings.extend(g.nest_log.iter().cloned());
-        branches.push(ChainBranch { locals, init_ty: init_ty.clone(), init_text: init_text.clone(), ops, fin });
+        let let_name = if rb(g.rng, 0.25) { Some((format!("nm{}", b), rb(g.rng, 0.3))) } else { None };
+        branches.push(ChainBranch { locals, let_name, init_ty: init_ty.clone(), init_text: init_text.clone(), ops, fin });
     }
     // C17: a handler whose body is a nested macro invocation over the results
     let mut handler: Option<(String, String)> = None;
